@@ -79,7 +79,7 @@ def register(reg):
         file=STAT, func="run_stat", variant="#loop", fragment=("for alignment_count, mapping in enumerate(gaf_file.read_file(), 1)", 1),
         params=dict(gaf_file=GAFObjP, cigar_stat=BOOL, total_aligned_bases=INT, total_mapq=INT, total_primary=INT, total_secondary=INT,
                     reads=DictT(STR, ReadT), **{c: INT for c in COUNTERS}),
-        types=dict(STR=STR, Read=ReadT), ufuns={"cigar_runs": ([STR], LINE), "fdiv": ([REAL, REAL], REAL)},
+        types=dict(STR=STR, Read=ReadT), ufuns={"cigar_runs": ([STR], LINE), "fdiv": ([REAL, REAL], REAL)}, modifies=["reads"],
         ghost=GHOST, spec_funcs=MACROS, locals=dict(alignment_count=INT),
         requires=DEFS + [
             "total_aligned_bases == 0 and total_mapq == 0 and total_primary == 0 and total_secondary == 0",
